@@ -30,7 +30,10 @@ type fault struct {
 	UseFrom int
 	Nonce   string // text that the diagnostic's message must contain ("" = learn from baseline)
 	Parse   bool   // a parse-time fault (nothing runs)
-	AtEOF   bool   // the fault is the last thing in the file and is detected at end of input:
+	// CatchPrint: the fault is caught by an outer catch block that prints
+	// "C18LOC|getMessage()|getFile()|getLine()" on stdout; the location is read there
+	CatchPrint bool
+	AtEOF      bool // the fault is the last thing in the file and is detected at end of input:
 	// any line from the fault's line to the line after the last newline is accepted
 }
 
@@ -98,7 +101,7 @@ var chunkKinds = []string{
 	"assign-int", "assign-str", "assign-str-mb", "mlstring", "mlstring-sq", "heredoc", "nowdoc",
 	"heredoc-interp", "interp", "interp-ml", "line-comment", "trailing-comment", "block-comment",
 	"block-comment-ml", "echo", "func", "class", "if", "array-ml", "expr-ml", "blank", "fwspace",
-	"closure", "html", "html-ml", "docblock", "numbers", "nested-interp",
+	"closure", "html", "html-ml", "docblock", "numbers", "nested-interp", "heredoc-shaped",
 }
 
 func (g *genState) chunk(kind string) chunk {
@@ -147,6 +150,8 @@ func (g *genState) chunk(kind string) chunk {
 			open = "<<<'" + id + "'"
 		}
 		t = fmt.Sprintf("$%s = %s\n%s\n%s;\n", v, open, strings.Join(ls, "\n"), id)
+	case "heredoc-shaped":
+		t = "$" + v + " = " + heredocShaped(r, "$v0", false) + ";\n"
 	case "interp":
 		t = fmt.Sprintf("$%s = \"%s {$v0} %s $v0 %s\";\n", v, words(r, 1, 90), words(r, 1, 60), words(r, 1, 60))
 	case "interp-ml":
@@ -254,13 +259,63 @@ var faultKinds = []string{
 	"interp-method", "mlinterp-dq-method", "mlinterp-heredoc-method", "mlinterp-dq-call",
 	"abstract-new", "ctor-throw", "static-undef-func", "array-ml-undef-func", "catch-rethrow",
 	"arrow-undef-func", "prop-type-mismatch", "chain-ml-prop", "generator-throw",
+	// an exception object that is caught and thrown again keeps the location of its first throw
+	"rethrow-same", "rethrow-outer", "rethrow-var", "rethrow-prop", "rethrow-finally",
+	// the same, observed through getLine()/getFile() in an outer catch block
+	"throw-getline", "throw-in-func-getline", "throw-in-method-getline", "ctor-throw-getline",
+	"closure-throw-getline", "generator-throw-getline", "catch-rethrow-getline",
+	"rethrow-same-getline", "rethrow-outer-getline", "rethrow-var-getline", "rethrow-prop-getline",
+	"rethrow-finally-getline", "rethrow-previous-getline",
 }
 
+const locEcho = `echo "\nC18LOC|", %s->getMessage(), "|", %s->getFile(), "|", %s->getLine(), "\n";`
+
 func (g *genState) fault(kind string) *fault {
+	if base, ok := strings.CutSuffix(kind, "-getline"); ok && base != "rethrow-previous" {
+		// the base fault, its statements inside try { … } catch (Exception $eo) { print location }
+		f := g.fault(base)
+		lines := strings.SplitAfter(f.Text, "\n")
+		decl := strings.Join(lines[:f.UseFrom], "")
+		use := strings.Join(lines[f.UseFrom:], "")
+		f.Kind, f.CatchPrint = kind, true
+		f.Text = decl + "try {\n" + use + "} catch (Exception $eo) {\n" + fmt.Sprintf(locEcho, "$eo", "$eo", "$eo") + "\n}\n"
+		if f.Line >= f.UseFrom {
+			f.Line++
+		}
+		return f
+	}
 	n := fmt.Sprintf("%04x", g.r.Intn(0x10000))
 	in := g.indent()
 	f := &fault{Kind: kind}
 	switch kind {
+	case "rethrow-same":
+		f.Nonce = "boom-" + n
+		f.Text = fmt.Sprintf("try {\n%s$w = 1;\n%sthrow new Exception(\"%s\");\n} catch (Exception $ex) {\n%s$w = 2;\n%sthrow $ex;\n}\n", in, in, f.Nonce, in, in)
+		f.Line = 2
+	case "rethrow-outer":
+		f.Nonce = "boom-" + n
+		f.Text = fmt.Sprintf("function rt_load_%s($a) {\n%sthrow new RuntimeException(\"%s\");\n}\nfunction rt_boot_%s() {\n%stry {\n%s%sreturn rt_load_%s(1);\n%s} catch (RuntimeException $ex) {\n%s%s$w = 1;\n%s%sthrow $ex;\n%s}\n}\nrt_boot_%s();\n",
+			n, in, f.Nonce, n, in, in, in, n, in, in, in, in, in, in, n)
+		f.Line, f.UseFrom = 1, 11
+	case "rethrow-var":
+		f.Nonce = "boom-" + n
+		f.Text = fmt.Sprintf("$saved = null;\ntry {\n%sthrow new Exception(\"%s\");\n} catch (Exception $ex) {\n%s$saved = $ex;\n}\n$w = 3;\nthrow $saved;\n", in, f.Nonce, in)
+		f.Line = 2
+	case "rethrow-prop":
+		f.Nonce = "boom-" + n
+		f.Text = fmt.Sprintf("class RH%s { public $err = null; }\n$rh = new RH%s();\ntry {\n%sthrow new Exception(\"%s\");\n} catch (Exception $ex) {\n%s$rh->err = $ex;\n}\n$w = 3;\nthrow $rh->err;\n", n, n, in, f.Nonce, in)
+		f.Line, f.UseFrom = 3, 1
+	case "rethrow-finally":
+		f.Nonce = "boom-" + n
+		f.Text = fmt.Sprintf("$saved = null;\ntry {\n%stry {\n%s%sthrow new Exception(\"%s\");\n%s} catch (Exception $ex) {\n%s%s$saved = $ex;\n%s}\n} finally {\n%sif ($saved) {\n%s%sthrow $saved;\n%s}\n}\n",
+			in, in, in, f.Nonce, in, in, in, in, in, in, in, in)
+		f.Line = 3
+	case "rethrow-previous-getline":
+		f.Nonce = "boom-" + n
+		f.CatchPrint = true
+		f.Text = fmt.Sprintf("try {\n%stry {\n%s%sthrow new Exception(\"%s\");\n%s} catch (Exception $ex) {\n%s%sthrow new RuntimeException(\"outer\", 0, $ex);\n%s}\n} catch (Exception $ey) {\n%s$pv = $ey->getPrevious();\n%s%s\n}\n",
+			in, in, in, f.Nonce, in, in, in, in, in, in, fmt.Sprintf(locEcho, "$pv", "$pv", "$pv"))
+		f.Line = 2
 	case "throw":
 		f.Nonce = "boom-" + n
 		f.Text = fmt.Sprintf("throw new Exception(\"%s\");\n", f.Nonce)
@@ -269,7 +324,7 @@ func (g *genState) fault(kind string) *fault {
 		f.Text = fmt.Sprintf("if ($v0 > 0) {\n%s$w = 1;\n%sthrow new Exception(\"%s\");\n}\n", in, in, f.Nonce)
 		f.Line = 2
 	case "throw-in-func":
-		f.UseFrom = 5
+		f.UseFrom = 4
 		f.Nonce = "boom-" + n
 		f.Text = fmt.Sprintf("function ff%s($a) {\n%s$b = $a + 1;\n%sthrow new Exception(\"%s\");\n}\nff%s(2);\n", n, in, in, f.Nonce, n)
 		f.Line = 2
@@ -697,4 +752,94 @@ var sourcePrefixes = []struct{ Name, Text string }{
 	{"fwspace", "\u3000\n"},
 	{"html", "<html>\n<body>é\n"},
 	{"html-comment", "<!-- ü -->"},
+}
+
+// heredocShaped draws one heredoc / nowdoc expression (from `<<<` to the closing marker,
+// without the `;`): 0–3 blank lines at the start and at the end of the body, blank lines
+// inside, multi-byte text, indented body and closing marker, and one of the interpolation
+// forms ({$x}, $x, {$x->p}, $x->p, \$, a lone $, none). variable is an initialised scalar
+// variable; objVar=true allows the ->p forms (variable must then be an object with $p).
+func heredocShaped(r *rand.Rand, variable string, objVar bool) string {
+	id := pick(r, []string{"EOT", "TXT", "HTML", "SQL", "END_1", "XY"})
+	nowdoc := r.Intn(4) == 0
+	forms := []string{"{" + variable + "}", variable, "\\" + variable, "$ 5", "", "{" + variable + "} " + variable}
+	if objVar {
+		forms = append(forms, "{"+variable+"->p}", variable+"->p")
+	}
+	form := forms[r.Intn(len(forms))]
+	ind := pick(r, []string{"", "", "  ", "    ", "\t"})
+	var body []string
+	for i, n := 0, r.Intn(4); i < n; i++ {
+		body = append(body, "")
+	}
+	nl := 1 + r.Intn(4)
+	at := r.Intn(nl)
+	for i := 0; i < nl; i++ {
+		l := ind + words(r, 1+r.Intn(3), 50)
+		if i == at && form != "" {
+			l += " " + form + " " + pick(r, mbWords)
+		}
+		body = append(body, l)
+		if r.Intn(4) == 0 {
+			body = append(body, "")
+		}
+	}
+	for i, n := 0, r.Intn(4); i < n; i++ {
+		body = append(body, "")
+	}
+	open := "<<<" + pick(r, []string{"", "", " "}) + id
+	if nowdoc {
+		open = "<<<'" + id + "'"
+	}
+	return open + "\n" + strings.Join(body, "\n") + "\n" + ind + id
+}
+
+// genHeredocSource: a source made of statements that use heredocShaped in every syntactic
+// position (assignment, echo, call argument, array element, concatenation), each followed by
+// ordinary statements whose lines must still be right.
+func genHeredocSource(r *rand.Rand, q quarantine) (src string, template bool) {
+	var sb strings.Builder
+	template = r.Intn(2) == 0
+	if template {
+		if r.Intn(3) == 0 {
+			sb.WriteString("<p>" + words(r, 1, 60) + "</p>\n")
+		}
+		sb.WriteString("<?php\n")
+	}
+	sb.WriteString("$v0 = 1;\nclass HO { public $p = 2; }\n$ho = new HO();\n")
+	for i, n := 0, 1+r.Intn(4); i < n; i++ {
+		variable, obj := "$v0", false
+		if r.Intn(3) == 0 {
+			variable, obj = "$ho", true
+		}
+		h := heredocShaped(r, variable, obj)
+		switch r.Intn(6) {
+		case 0:
+			fmt.Fprintf(&sb, "$h%d = %s;\n", i, h)
+		case 1:
+			fmt.Fprintf(&sb, "echo %s;\n", h)
+		case 2:
+			fmt.Fprintf(&sb, "echo strlen(%s\n);\n", h)
+		case 3:
+			fmt.Fprintf(&sb, "$a%d = ['k' => %s\n, 'z' => %d];\n", i, h, r.Intn(9))
+		case 4:
+			fmt.Fprintf(&sb, "$c%d = %s\n. '%s';\n", i, h, pick(r, mbWords))
+		default:
+			fmt.Fprintf(&sb, "$h%d = %s;\n", i, h)
+		}
+		switch r.Intn(4) {
+		case 0:
+			fmt.Fprintf(&sb, "$t%d = %d; // %s\n", i, r.Intn(99), pick(r, mbWords))
+		case 1:
+			fmt.Fprintf(&sb, "echo $v0;\n\n$u%d = \"%s\";\n", i, words(r, 1, 70))
+		case 2:
+			fmt.Fprintf(&sb, "if ($v0 > 0) {\n    echo '%s';\n}\n", pick(r, asciiWords))
+		}
+	}
+	sb.WriteString("echo $v0;\n")
+	src = sb.String()
+	if r.Intn(3) == 0 {
+		src = toCRLF(src, q)
+	}
+	return
 }
